@@ -58,7 +58,7 @@ func init() {
 	register(&Rule{
 		ID:    "REC-1",
 		Doc:   "recursion guards: every recursive function (static call from the function or a literal nested in it back to it) has a mark-and-test guard - a map marked for the parameter/argument before the recursive call and a lookup of the same map controlling that call (at the call site or as an early return at entry) - or is listed in the reviewed table with the reason it terminates",
-		Floor: 13,
+		Floor: 10,
 		Ctl:   []string{"internal__phase2__rec1.go.txt"},
 		Run:   runRec1,
 	})
